@@ -308,6 +308,26 @@ func c16(e *Env) {
 				}
 			}
 		}
+		if c.Choose("failed-use-first", 3) == 2 {
+			// some client's USE of a keyspace that does not exist has failed before anything happens
+			// to the cluster: the session the proxy tried to create for it is not usable, and its
+			// remains must not stand between the cluster and everybody else's view of the membership
+			for _, n := range w.Nodes {
+				n.Keyspaces = map[string]bool{"ks": true, "system": true}
+			}
+			cl3 := w.ConnectClient(pi, primitive.ProtocolVersion4)
+			st3 := cl3.Send("startup", "", message.NewStartup(), nil)
+			w.RunUntil(func() bool { return len(st3.Replies) > 0 }, time.Minute)
+			u := cl3.Send("use", "", world.QueryMsg("USE nosuch", primitive.ConsistencyLevelOne), nil)
+			w.RunUntil(func() bool { return len(u.Replies) > 0 }, time.Minute)
+			for _, n := range w.Nodes {
+				n.Keyspaces = nil
+			}
+			if w.Stopped() {
+				return
+			}
+			e.Res.Stats["probe.c16.failed_use_before_topology_changes"]++
+		}
 		var cl2 *world.Client // a client with other settings, connected during a refresh (some runs)
 		addedAt := map[*world.Node]time.Duration{}
 		for _, n := range w.Nodes {
@@ -768,6 +788,28 @@ func c16(e *Env) {
 		old := controlNode()
 		keepDown := len(w.Nodes) > 1 && c.Choose("keepdown", 2) == 1
 		simultaneous := c.Choose("simul", 2) == 1
+		// a control connection is established once the node has answered the queries the proxy
+		// makes on it (a connection that has merely registered for events is not there yet)
+		established := func() bool {
+			for _, cc := range w.ControlConns {
+				if cc.AnsweredPeers && !cc.Closed {
+					return true
+				}
+			}
+			return false
+		}
+		if len(w.Nodes) > 1 && c.Choose("next-host-silent-after-handshake", 3) == 2 {
+			// one of the other hosts completes the handshake of a new control connection and then
+			// answers nothing (and does not close): the attempt is given up after the connect
+			// time-out and the next host is tried
+			for _, n := range w.Nodes {
+				if n != old {
+					n.SilentControlQueries = 1 + c.Choose("silent-queries", 2)
+					e.Res.Stats["probe.c16.host_silent_after_handshake"]++
+					break
+				}
+			}
+		}
 		if keepDown {
 			old.Crash()
 		} else {
@@ -787,16 +829,16 @@ func c16(e *Env) {
 		if w.Stopped() || !ok {
 			return
 		}
-		if len(w.ControlConns) == 0 {
+		if !established() {
 			wait := time.Duration(1+c.Choose("outwait", 40)) * 40 * time.Millisecond
-			w.RunUntil(func() bool { return len(w.ControlConns) > 0 }, wait)
-			if len(w.ControlConns) == 0 {
+			w.RunUntil(established, wait)
+			if !established() {
 				d2, ok := sampleOutage(w, pi)
 				if w.Stopped() || !ok {
 					return
 				}
 				el := w.Now() - t0
-				if len(w.ControlConns) > 0 {
+				if established() {
 					// the control connection came back while the sample was being taken (sampling
 					// steps the world): the sample says nothing about the outage clock
 					e.Res.Stats["probe.c16.outage_sample_overtaken"]++
@@ -808,12 +850,12 @@ func c16(e *Env) {
 				}
 			}
 		}
-		ok = w.RunUntil(func() bool { return len(w.ControlConns) > 0 }, bound)
+		ok = w.RunUntil(established, bound)
 		if w.Stopped() {
 			return
 		}
 		if !ok {
-			w.Violate("c16-failover", "control-connection-not-reestablished", fmt.Sprintf("%v after the control connection was lost no backend has a registered control connection", bound))
+			w.Violate("c16-failover", "control-connection-not-reestablished", fmt.Sprintf("%v after the control connection was lost no backend has a registered control connection on which it answered the proxy's queries", bound))
 			return
 		}
 		w.Quiesce()
